@@ -681,7 +681,12 @@ func parseSpecFunc(rest, src string) (*SpecFunc, error) {
 	tail := strings.TrimSpace(rest[j+1:])
 	k := strings.Index(tail, "=")
 	if k < 0 {
-		return nil, fmt.Errorf("%s: spec function needs = body", src)
+		// no body: an uninterpreted function (only its being a function of its arguments is known)
+		ret, err := sortOfName(tail)
+		if err != nil {
+			return nil, fmt.Errorf("%s: %v", src, err)
+		}
+		return &SpecFunc{Name: name, Params: params, Ret: ret, Src: src}, nil
 	}
 	ret, err := sortOfName(strings.TrimSpace(tail[:k]))
 	if err != nil {
